@@ -278,13 +278,21 @@ func (e *kvElection) verifyLeadershipAfterReconnect() {
 	// Give connection a moment to stabilize
 	time.Sleep(100 * time.Millisecond)
 
-	// Verify connection is working
-	ctx, cancel := context.WithTimeout(context.Background(), 2*time.Second)
-	defer cancel()
-
 	log := e.getLogger()
 
+	// Verify connection is working
 	_, err := e.kv.Get(e.key)
+
+	// The token check below gets a time budget of its own, counted from here
+	// (the read above must not eat it up), and as long as the store is given to
+	// answer elsewhere: half a heartbeat interval, at least 2s.
+	timeout := 2 * time.Second
+	if half := e.cfg.HeartbeatInterval / 2; half > timeout {
+		timeout = half
+	}
+	ctx, cancel := context.WithTimeout(context.Background(), timeout)
+	defer cancel()
+
 	if err != nil {
 		log.Error("reconnect_verification_failed",
 			append(e.logWithContext(ctx),
